@@ -78,9 +78,11 @@ func runC04(c *Ctx) {
 	// stages the height → ID index before the cache notices a non-consecutive height, so the only
 	// barrier is the verifier — a block is applied only as the successor of the current tip
 	// (the reject edges of C03.V that tie the incoming block to the tip)
-	c.MinInstances("C04.R5 only-the-tips-successor-is-added", c.borrowRule(runC03, "C03", "V reject-edge", "C04.R5 only-the-tips-successor-is-added", func(k string) bool {
+	if n5 := c.borrowRule(runC03, "C03", "V reject-edge", "C04.R5 only-the-tips-successor-is-added", func(k string) bool {
 		return strings.Contains(k, "previousBlockID == tip.ID") || strings.Contains(k, "height == tip.height")
-	}), 2)
+	}); n5 < 2 {
+		c.Undecided("C04.R5 only-the-tips-successor-is-added", "verifyBlock: tip-linking reject edges", "the reject-edge table of C03.V could not be evaluated (anchor missing)")
+	}
 	removeBlock := c.Anchor("pkg/blockchain.(*Chain).RemoveBlock")
 	addBlock := c.Anchor("pkg/blockchain.(*Chain).AddBlock")
 	saveBlock := c.Anchor("pkg/blockchain.(*DataAccess).saveBlock")
